@@ -1,0 +1,186 @@
+//go:build verif
+
+package verifspec
+
+// The Thrift Binary grammar as total functions on byte strings. Written from the Thrift
+// Binary protocol description, not from the skippers: no fast paths, no pointer tricks.
+//
+// Every function returns the encoded length (>= 0) of what it parses at b[off:], or a
+// negative cause code for the first failure met in parse order:
+//
+//	-1  invalid data: the value is cut short, or a type tag that has to be parsed is unknown
+//	-2  a declared size is negative
+//	-3  the container nesting budget d is used up (d counts the containers, structs and
+//	    unknown-typed values that may still be entered; scalars and strings need no budget)
+
+const (
+	tSTOP   = 0
+	tBOOL   = 2
+	tBYTE   = 3
+	tDOUBLE = 4
+	tI16    = 6
+	tI32    = 8
+	tI64    = 10
+	tSTRING = 11
+	tSTRUCT = 12
+	tMAP    = 13
+	tSET    = 14
+	tLIST   = 15
+)
+
+// Fixed is the encoded size of a fixed-size type, 0 for every other type byte.
+func Fixed(t int8) int {
+	switch t {
+	case tBOOL, tBYTE:
+		return 1
+	case tI16:
+		return 2
+	case tI32:
+		return 4
+	case tI64, tDOUBLE:
+		return 8
+	}
+	return 0
+}
+
+// From is b[n:], or the empty suffix when n is out of range (keeps the functions total).
+func From(b []byte, n int) []byte {
+	if n < 0 || n > len(b) {
+		return b[len(b):]
+	}
+	return b[n:]
+}
+
+// ValLenD is the length of one value of type t at the start of b, with nesting budget d.
+func ValLenD(b []byte, t int8, d int) int {
+	if len(b) == 0 {
+		return -1 // every value occupies at least one byte
+	}
+	if n := Fixed(t); n > 0 {
+		if n > len(b) {
+			return -1
+		}
+		return n
+	}
+	if t == tSTRING {
+		return StrLen(b)
+	}
+	if d <= 0 {
+		return -3
+	}
+	switch t {
+	case tSTRUCT:
+		return FieldsLenD(b, d)
+	case tMAP:
+		if 6 > len(b) {
+			return -1
+		}
+		n := int(int32(BE32(b, 2)))
+		if n < 0 {
+			return -2
+		}
+		r := PairsLenD(From(b, 6), int8(b[0]), int8(b[1]), n, d)
+		if r < 0 {
+			return r
+		}
+		return 6 + r
+	case tLIST, tSET:
+		if 5 > len(b) {
+			return -1
+		}
+		n := int(int32(BE32(b, 1)))
+		if n < 0 {
+			return -2
+		}
+		r := ElemsLenD(From(b, 5), int8(b[0]), n, d)
+		if r < 0 {
+			return r
+		}
+		return 5 + r
+	}
+	return -1
+}
+
+// StrLen is the length of a string / binary at the start of b: 4-byte big-endian size, then the bytes.
+func StrLen(b []byte) int {
+	if 4 > len(b) {
+		return -1
+	}
+	n := int(int32(BE32(b, 0)))
+	if n < 0 {
+		return -2
+	}
+	if 4+n > len(b) {
+		return -1
+	}
+	return 4 + n
+}
+
+// ElemsLenD is the total length of n consecutive values of type t at the start of b
+// (elements of a list / set whose own budget is d: the elements get d-1).
+func ElemsLenD(b []byte, t int8, n int, d int) int {
+	if n <= 0 {
+		return 0
+	}
+	l := ValLenD(b, t, d-1)
+	if l < 0 {
+		return l
+	}
+	r := ElemsLenD(From(b, l), t, n-1, d)
+	if r < 0 {
+		return r
+	}
+	return l + r
+}
+
+// PairsLenD is the total length of n consecutive key/value pairs of a map with budget d.
+func PairsLenD(b []byte, kt, vt int8, n int, d int) int {
+	if n <= 0 {
+		return 0
+	}
+	k := ValLenD(b, kt, d-1)
+	if k < 0 {
+		return k
+	}
+	v := ValLenD(From(b, k), vt, d-1)
+	if v < 0 {
+		return v
+	}
+	r := PairsLenD(From(b, k+v), kt, vt, n-1, d)
+	if r < 0 {
+		return r
+	}
+	return k + v + r
+}
+
+// FieldsLenD is the length of a struct body at the start of b: fields (type, id16, value)
+// up to and including the STOP byte; the struct's own budget is d, field values get d-1.
+func FieldsLenD(b []byte, d int) int {
+	if 1 > len(b) {
+		return -1
+	}
+	t := int8(b[0])
+	if t == tSTOP {
+		return 1
+	}
+	if 3 > len(b) {
+		return -1
+	}
+	l := ValLenD(From(b, 3), t, d-1)
+	if l < 0 {
+		return l
+	}
+	r := FieldsLenD(From(b, 3+l), d)
+	if r < 0 {
+		return r
+	}
+	return 3 + l + r
+}
+
+// Then is "a bytes consumed, then r": failure codes pass through.
+func Then(a int, r int) int {
+	if r < 0 {
+		return r
+	}
+	return a + r
+}
